@@ -110,7 +110,7 @@ func runGated(c J, bodies [][]byte, ow *obsWriter) {
 		solo[i] = libDecision(b, nil)
 	}
 	sched := c["schedule"].([]interface{})
-	g := &gateCtl{client: map[*model.DecisionMaker]int{}, turn: make([]chan struct{}, n), arrived: make(chan int, 4*n)}
+	g := &gateCtl{client: map[*model.DecisionMaker]int{}, turn: make([]chan struct{}, n), arrived: make(chan int, 4*n), order: []interface{}{}}
 	for i := range g.turn {
 		g.turn[i] = make(chan struct{})
 	}
